@@ -119,6 +119,42 @@ theorem C09_callbacks_find_packet (c : QCfg) (hc : c.WF) (pre post : List QLbl) 
     (QS.run c {} pre).q.items ≠ [] :=
   beginSend_called_nonempty hc pre post l h hl
 
+
+/-! ### routes of several hops
+
+A packet crossing hops 1…n arrives at hop i+1 no earlier than it left hop i (`forward_packet`
+is synchronous, sinks between queues add no time); each queue hop satisfies
+`C09_min_crossing`: it leaves no earlier than `arrival + latency + serialisation`. The
+end-to-end delay is therefore bounded below by the sum along the route — the UDP one-way
+delay, each half of a TCP connect round trip, and every segment of a bulk transfer. -/
+
+/-- one hop as seen by one packet: (arrival, departure, latency, serialisation time) -/
+structure HopPass where
+  arr : Int
+  dep : Int
+  lat : Int
+  ser : Int
+
+/-- every hop respects its minimum crossing time, and hops are traversed in order -/
+def RouteOK : List HopPass → Prop
+  | [] => True
+  | [h] => h.arr + h.lat + h.ser ≤ h.dep
+  | h :: h' :: rest => h.arr + h.lat + h.ser ≤ h.dep ∧ h.dep ≤ h'.arr ∧ RouteOK (h' :: rest)
+
+theorem C09_route_lower_bound (h : HopPass) (rest : List HopPass) (hok : RouteOK (h :: rest)) :
+    h.arr + ((h :: rest).map (fun x => x.lat + x.ser)).sum ≤ ((h :: rest).getLast (by simp)).dep := by
+  induction rest generalizing h with
+  | nil => simp only [RouteOK] at hok; simp; omega
+  | cons h' rest ih =>
+    obtain ⟨h1, h2, h3⟩ := hok
+    have := ih h' h3
+    simp only [List.map_cons, List.sum_cons] at this ⊢
+    rw [List.getLast_cons (by simp)]
+    omega
+
+/-- a three-hop route: 10+5, 20+1, 0+7 -/
+example : RouteOK [⟨0, 15, 10, 5⟩, ⟨15, 40, 20, 1⟩, ⟨40, 47, 0, 7⟩] := by simp [RouteOK]
+
 /-! ### non-vacuity: a well-timed history exists, and the logs are what the recurrence says -/
 
 example : QS.okRun QEx.cfg {} QEx.hist := by decide
